@@ -5,7 +5,7 @@
 #include <igris/container/sline.h>
 using namespace vlog;
 void xx_bind(std::vector<unsigned char> *, std::vector<std::vector<unsigned char>> *, std::vector<int> *, int *);
-void xx_init(int cap, int depth); void xx_key(int c); int xx_len(); int xx_cursor();
+void xx_init(int cap, int depth); void xx_reinit(int cap, int depth); void xx_key(int c); int xx_len(); int xx_cursor();
 
 static const int G = 8;
 static std::string kind; static int cap, depth;
@@ -47,6 +47,14 @@ int main(int argc, char **argv) {
             else if (kind == "sl") { free(sb); sb = (unsigned char *)malloc(cap + 2 * G); memset(sb, 0xA5, cap + 2 * G); sline_init(&SL, (char *)sb + G, cap); Ev e("Reset"); e.str("kind", "sl").i("cap", cap).i("depth", 0); sl_obs(e); e.end(); }
             else { XSL.reset(new igris::sline(cap)); Ev e("Reset"); e.str("kind", "slxx").i("cap", cap).i("depth", 0); sl_obs(e); e.end(); }
             return; }
+        if (op == "Reinit") {   // Reinit cap depth : the terminal object of this execution is initialised again with another line capacity / history depth
+            cap = num(t[1]); depth = num(t[2]); out.clear(); execs.clear(); nuls.clear(); sig = 0;
+            if (kind == "c") { free(lb); free(hb); lb = (unsigned char *)malloc(cap + 2 * G); hb = (unsigned char *)malloc((size_t)cap * depth + 2 * G); memset(lb, 0xA5, cap + 2 * G); memset(hb, 0xA5, (size_t)cap * depth + 2 * G);
+                vterm_automate_init(&V, (char *)lb + G, cap, (char *)hb + G, depth); vterm_set_write_callback(&V, cw, 0); vterm_set_execute_callback(&V, ce, 0); vterm_set_signal_callback(&V, cs, 0);
+                vterm_automate_init_step(&V); }
+            else if (kind == "xx") xx_reinit(cap, depth);
+            else { fprintf(stderr, "Reinit: bad kind\n"); exit(3); }
+            Ev e("Reinit"); e.str("kind", kind.c_str()).i("cap", cap).i("depth", depth); tail(e); e.end(); return; }
         if (op == "Key") { int c = num(t[1]); out.clear(); execs.clear(); nuls.clear(); sig = 0;
             if (kind == "c") vterm_automate_newdata(&V, (int16_t)c); else xx_key(c);
             Ev e("Key"); e.i("k", c); tail(e); e.end(); return; }
